@@ -1,7 +1,7 @@
 (* C11 - File operations.  Only statements, each closed by [exact] of a lemma
    proved in Proofs/Fs*.v, with Print Assumptions beneath. *)
 From UV Require Import Lib.Base Model.Fs Proofs.FsProofs Proofs.FsRoutesProofs Proofs.FsLedgerProofs
-  Proofs.FsPoolProofs Proofs.FsRingProofs Proofs.FsPathProofs.
+  Proofs.FsPoolProofs Proofs.FsRingProofs Proofs.FsPathProofs Proofs.FsScandirProofs.
 
 (* ================= (b) buffer arithmetic ================= *)
 
@@ -313,3 +313,17 @@ Theorem C11_readlink_whole_target :
   (Z.of_nat (length target) < pathmax_size pc)%Z /\ fs_readlink_ptr pc target = target.
 Proof. exact readlink_whole_target. Qed.
 Print Assumptions C11_readlink_whole_target.
+
+(* ================= (g) scandir entries ================= *)
+
+(* uv_fs_scandir drops exactly "." and "..": every other entry name - dots only
+   ("...", "...."), leading/trailing dots, blanks, arbitrary bytes - is reported. *)
+Theorem C11_scandir_filter_exact :
+  forall name, scandir_keeps name = false <-> name = DOT \/ name = DOTDOT.
+Proof. exact scandir_filter_exact. Qed.
+Print Assumptions C11_scandir_filter_exact.
+
+Theorem C11_scandir_entries :
+  forall l x, In x (scandir_entries l) <-> In x l /\ x <> DOT /\ x <> DOTDOT.
+Proof. exact scandir_entries_spec. Qed.
+Print Assumptions C11_scandir_entries.
